@@ -113,6 +113,13 @@ def run(ctx, rep):
     e = epmodel.ep(ctx, False)
     pres = dict((cn, p) for (_ci, cn, p, _bc) in e.carriers())
     edata = tm.proj(e.params["components"], 0, 1, "data")
+    # factors for cogenerated electricity given in the file take precedence (first match) over the derived ones
+    cg = [prod("EL_COGEN"), used("GASNATURAL", "COGEN")]
+    needs.append((K("ELECTRICIDAD", "COGEN", "SUMINISTRO", "A"), cg, "file-defined cogeneration supply factor"))
+    for st in ("A", "B"):
+        needs.append((K("ELECTRICIDAD", "COGEN", "A_RED", st), cg, "file-defined cogeneration export-to-grid factor"))
+        needs.append((K("ELECTRICIDAD", "COGEN", "A_NEPB", st), cg + [used("ELECTRICIDAD", "NEPB")],
+                      "file-defined cogeneration export-to-nEPB factor"))
     n = 0
     skipped = 0
     for k, witness, why in needs:
